@@ -572,7 +572,17 @@ def check_mutators(idx, run):
                        f"{meth} never reaches list.{meth}")
                     continue
                 arg = sup[0][2][0] if sup[0][2] else Aff(-1)
-                target = summ.list_pos(arg)
+                try:
+                    target = summ.list_pos(arg)
+                except IndexErr:
+                    # the list operation itself raises IndexError: fine if
+                    # nothing changed before it
+                    pre = [e for e in flat(events)
+                           if e[0] in ("link", "unlink") and
+                           e[-1] < sup[0][-1]]
+                    ob("C14.R1d", not pre, "IndexError before any change",
+                       "out-of-range index raises after a link changed")
+                    continue
                 ob("C14.R1b", range_validates(events, target + 1, nlen, -1,
                                               region),
                    "displaced items validated",
@@ -594,7 +604,15 @@ def check_mutators(idx, run):
                     ob("C14.R1e", False, "no super call",
                        "__setitem__ never reaches list.__setitem__")
                     continue
-                target = summ.list_pos(sup[0][2][0])
+                try:
+                    target = summ.list_pos(sup[0][2][0])
+                except IndexErr:
+                    pre = [e for e in flat(events)
+                           if e[0] in ("link", "unlink") and
+                           e[-1] < sup[0][-1]]
+                    ob("C14.R1d", not pre, "IndexError before any change",
+                       "out-of-range index raises after a link changed")
+                    continue
                 ob("C14.R1a", has_validate(events, target, item, region,
                                            supline),
                    "new item validated at final position",
